@@ -232,6 +232,46 @@ def main():
     P.oblige('interpolate_ntv2.start_byte', 'ntv2reader.interpolate_ntv2', 'two sub-grids', dict(result='discharged' if okb else 'sat', backend='term identity', ms=0), strict=True,
              note='data of sub-grid k start at 176 + sum_{j<k}(176 + 16 gs_count_j) + 176: the same recurrence the reader follows')
 
+    # ---------------------------------------------------------------- three overlapping sub-grids: the fineness order is symbolic, so every
+    # arrangement of coarse / medium / fine over the file order is covered by one exploration
+    sgs3 = [subgrid(t) for t in ('P', 'Q', 'T')]
+    grid3 = nr.NTv2Grid(11, 11, 3, 'SECONDS', 'NTv2.0', 'A', 'B', 1.0, 1.0, 1.0, 1.0, 'ghost.gsb')
+    for sg_, _, _ in sgs3:
+        grid3.subgrids[sg_.sub_name] = sg_
+    pre = [c for _, _, v_ in sgs3 for c in v_]
+    try:
+        paths3 = run_interp(grid3, 'bilinear', rec={})
+        why3 = None
+    except S.EngineError as ex:
+        paths3, why3 = [], str(ex)[:120]
+    ins3 = [ins_of(v_) for _, v_, _ in sgs3]
+    ok3, seen3 = bool(paths3), set()
+    for p in paths3:
+        if p['kind'] != 'ret':
+            ok3 = False
+            continue
+        fields, reads, rec = p['val']
+        sel = rec.get('selected') if fields[0] is not None else None
+        seen3.add(sel)
+        if sel is None:
+            claim = z3.And(*[z3.Not(i_) for i_ in ins3])
+        else:
+            k_ = [sg_.sub_name for sg_, _, _ in sgs3].index(sel)
+            claim = z3.And(ins3[k_], *[z3.Implies(ins3[j_], sgs3[k_][1]['dy'].t <= sgs3[j_][1]['dy'].t) for j_ in range(3) if j_ != k_])
+            start = rec['args'][6]
+            want = z3.RealVal(352) + sum([176 + 16 * (sgs3[j_][1]['R'].t * sgs3[j_][1]['C'].t) for j_ in range(k_)], z3.RealVal(0))
+            ok3 = ok3 and eq(start, want)
+        sv = z3.Solver()
+        sv.add(*pre)
+        sv.add(*p['pc'])
+        sv.add(z3.Not(claim))
+        ok3 = ok3 and E.zcheck(sv, 20000) == z3.unsat
+        if not ok3:
+            break
+    P.oblige('interpolate_ntv2.selection_overlap', 'ntv2reader.interpolate_ntv2', '%d paths over three symbolic sub-grids' % len(paths3),
+             dict(result=('engine: ' + why3) if why3 else ('discharged' if ok3 and len(seen3) == 4 else 'sat'), backend=E.Z3V, ms=0), strict=True, soft=bool(why3),
+             note='three sub-grids in one file order with symbolic spacings (all six fineness orders): the sub-grid used is one that contains the point and none containing it is finer; its data start byte follows the reader\'s recurrence')
+
     # ---------------------------------------------------------------- reader: header and sub-grid metadata offsets, 1..4 sub-grids
     hdr = [('num_orec', I32, 0), ('num_srec', I32, 1), ('num_file', None, 2), ('gs_type', 'str', 3), ('version', 'str', 4), ('system_f', 'str', 5), ('system_t', 'str', 6),
            ('major_f', F64, 7), ('minor_f', F64, 8), ('major_t', F64, 9), ('minor_t', F64, 10)]
